@@ -51,6 +51,8 @@ def judge(op, impl, model):
     wf, conf, forb = _field(model, "wf"), _field(model, "conforms"), _field(model, "forbidden")
     if syn == "0" and _field(impl, "other") == "0" and (wf != "1" or conf != "1" or _field(model, "root") != "0"):
         return "reject tree-outside-grammar-assumption wf=%s conforms=%s (ANTLR tree of a syntax-error-free parse does not follow the regenerated grammar)" % (wf, conf)
+    if _field(impl, "acc_old") == "1" and forb != "[]":
+        return "reject older-default-context-accepted-forbidden-construct " + forb
     if acc == "1":
         if forb != "[]":
             return "reject accepted-with-forbidden-construct " + forb
